@@ -429,19 +429,19 @@ Proof. cbn. intros (_ & H & _). specialize (H eq_refl). discriminate H. Qed.
 Example calm_example :
   let l := [(Zip, plain_dir_shape, Some 9); (Dir, plain_dir_shape, Some 8);
             (Dir, plain_dir_shape, None); (Zip, [SOpen; SFill], Some 2); (Dir, plain_dir_shape, Some 0)] in
-  calm l /\ run_saves l = [Good 3 Dir 9; Partial 2 4; Absent; Absent].
+  calm l /\ run_saves l = [Absent; Good 3 Dir 9; Partial 2 5; Absent].
 Proof. cbn zeta. split; [cbn; repeat split; intros; try reflexivity; discriminate|vm_compute; reflexivity]. Qed.
 
 Example zip_example :
   let l := [(Zip, [SOpen; SFill], None); (Zip, [SOpen; SFill], Some 7); (Zip, [SOpen; SFill], Some 0);
             (Zip, [SOpen; SFill], None); (Zip, [SOpen; SFill], Some 1)] in
-  all_zip l /\ run_saves l = [Good 4 Zip 1; Absent; Good 1 Zip 1; Absent].
+  all_zip l /\ run_saves l = [Good 4 Zip 1; Good 2 Zip 1; Absent; Good 1 Zip 1].
 Proof. cbn zeta. split; [repeat constructor|vm_compute; reflexivity]. Qed.
 
 Example single_faults_example :
   let l := [(Dir, plain_dir_shape, None); (Dir, plain_dir_shape, Some 6); (Dir, plain_dir_shape, None);
             (Dir, plain_dir_shape, Some 1)] in
-  single_faults l /\ run_saves l = [Absent; Good 3 Dir 9; Partial 2 3; Good 1 Dir 9].
+  single_faults l /\ run_saves l = [Good 3 Dir 9; Partial 2 3; Absent; Good 1 Dir 9].
 Proof. cbn zeta. split; [cbn; repeat split; intros; try reflexivity; discriminate|vm_compute; reflexivity]. Qed.
 
 Example rotate_example :
